@@ -8,3 +8,4 @@ import VerylModel.Props.C24
 import VerylModel.Props.C36
 import VerylModel.Props.C35
 import VerylModel.Props.C32
+import VerylModel.Props.C28
